@@ -50,6 +50,13 @@ fn case_list(ctx: &Ctx) -> Vec<Case> {
             v.push(Case { size, class: r.below(data::NUM_CLASSES), level, zlib: r.bool(), boundary: true });
         }
     }
+    // C2: lazy-parsing stress inputs, several LZ-buffer fills long and poorly compressible (the
+    // one-shot function then re-enters the compressor after growing its output vector)
+    let nl = ctx.n(48, 600);
+    for j in 0..nl {
+        let mut r = ctx.rng("listL", j);
+        v.push(Case { size: 250_000 + r.below(450_000), class: 16, level: 4 + r.below(7) as u8, zlib: r.bool(), boundary: false });
+    }
     // D: random mid sizes, all classes
     let n = ctx.n(600, 20_000);
     for j in 0..n {
